@@ -189,7 +189,7 @@ def gen_atom(rng, depth):
             toks.append(dict(TK_PCT))
         return toks
     if r < 0.6:
-        return [tk_name(rng.choice(['x', 'x', 'x_1', "y'", 'T_{1}^{2}', 'sin', 'x', 'x_1'] + (['u', 'X'] if rng.random() < 0.15 else [])))]
+        return [tk_name(rng.choice(['x', 'x', 'x_1', "y'", 'T_{1}^{2}', 'sin', 'x', 'x_1'] + (['u', 'X', 't_{1}^{2}', "Y'", 'X_1'] if rng.random() < 0.15 else [])))]
     if r < 0.75:
         fn = rng.choice(['f', 'f', 'g', 'x'] + (['h'] if rng.random() < 0.2 else []))
         nargs = {'f': 1, 'g': 2, 'x': 1, 'h': 1}[fn]
